@@ -153,9 +153,9 @@ class GDataConverter(XMLSchemaConverter):
             elif not isinstance(value, MutableSequence) or not value:
                 ns_name = self.unmap_qname(name, xmlns=self.get_xmlns_from_data(value))
                 content.append((ns_name, value))
-            elif isinstance(value[0], (MutableMapping, MutableSequence)):
-                ns_name = self.unmap_qname(name, xmlns=self.get_xmlns_from_data(value[0]))
+            elif any(isinstance(item, (MutableMapping, MutableSequence)) for item in value):
                 for item in value:
+                    ns_name = self.unmap_qname(name, xmlns=self.get_xmlns_from_data(item))
                     content.append((ns_name, item))
             else:
                 ns_name = self.unmap_qname(name)
